@@ -41,6 +41,20 @@ theorem add_opposite_second (a b : Geonum F) (h1 : sameAngle a b = false) (h2 : 
     a.add b = ⟨fneg (fsub a.mag b.mag), b.angle⟩ := by
   unfold Geonum.add; unfold sameAngle at h1; unfold oppositeAngle at h2; simp [h1, h2, h3, h4]
 
+/-- numerator / denominator of the direction of the general branch, as associated in the source -/
+def oppSum (a b : Geonum F) : F :=
+  fadd (fmul a.mag (FloatLike.sin a.angle.gradeAngle)) (fmul b.mag (FloatLike.sin b.angle.gradeAngle))
+def adjSum (a b : Geonum F) : F :=
+  fadd (fmul a.mag (FloatLike.cos a.angle.gradeAngle)) (fmul b.mag (FloatLike.cos b.angle.gradeAngle))
+
+theorem add_general (a b : Geonum F) (h1 : sameAngle a b = false) (h2 : oppositeAngle a b = false) :
+    a.add b = Geonum.newWithBlade (sqrt (fmax (radicand a b) zero)) (a.angle.blade + b.angle.blade)
+      (fsub (FloatLike.atan2 (oppSum a b) (adjSum a b))
+            (fdiv (fmul (FloatLike.ofNat (a.angle.blade + b.angle.blade)) pi) two)) pi := by
+  unfold Geonum.add; unfold sameAngle at h1; unfold oppositeAngle at h2
+  simp only [h1, h2, Bool.false_eq_true, if_false]
+  rfl
+
 theorem add_general_mag (a b : Geonum F) (h1 : sameAngle a b = false) (h2 : oppositeAngle a b = false) :
     (a.add b).mag = sqrt (fmax (radicand a b) zero) := by
   unfold Geonum.add; unfold sameAngle at h1; unfold oppositeAngle at h2
